@@ -27,11 +27,11 @@
                                search / reach since the index was last empty
     D3-hnsw-prune-disconnects  trigger: the index held more than 2M+1 vertices at some
                                time since it was last empty (nearest-M pruning happened)
-    D16-hnsw-removal-disconnects trigger: a removal succeeded and the index held more than
+    D21-hnsw-removal-disconnects trigger: a removal succeeded and the index held more than
                                efConstruction vertices at some time since it was last empty
                                (so the layer-0 graph is not complete and removed vertices,
                                which are never traversed, can be cut vertices)
-  (precedence D2, D3, D16: the first trigger that holds names the finding)
+  (precedence D2, D3, D21: the first trigger that holds names the finding)
 -/
 import Comet.Driver.Proto
 import Comet.Driver.Flat
@@ -200,7 +200,7 @@ def noteEntry (st : St) : St :=
 def knownOr (st : St) (agree : Bool) (what : String) : String :=
   if st.entryDead && agree then s!"KNOWN D2-hnsw-entry-removed {what}"
   else if st.over && agree then s!"KNOWN D3-hnsw-prune-disconnects {what}"
-  else if st.removed && lowEf st && agree then s!"KNOWN D16-hnsw-removal-disconnects {what}"
+  else if st.removed && lowEf st && agree then s!"KNOWN D21-hnsw-removal-disconnects {what}"
   else s!"SPECFAIL {what} entryDead={st.entryDead} over={st.over} removed={st.removed} lowEf={lowEf st} modelAgrees={agree}"
 
 def flag (b : Bool) : Nat := if b then 1 else 0
